@@ -1186,6 +1186,11 @@ fn finish_event(
     dev.0.borrow_mut().observe = true;
     let saved_pos = dev.0.borrow().pos;
     let img = dev.image();
+    if cfg.j.get("digest").and_then(Value::as_bool) == Some(true) {
+        // image digest as two 31-bit halves (C19: byte-identical images across feature builds)
+        let d = img.digest();
+        ev.insert("dg".into(), json!([(d >> 33) & 0x7FFF_FFFF, d & 0x7FFF_FFFF]));
+    }
     if cfg.obs_raw {
         let raw = decode(&img, dopts);
         let s = raw.to_string();
